@@ -30,13 +30,18 @@
 (def worst @{})   # law -> @[history count detail]
 
 (defn record [e]
-  (def [_ law hist detail] (string/split "\t" e 0 4))
+  (def [_ law0 hist detail] (string/split "\t" e 0 4))
+  (def lastop (in hist (- (length hist) 1)))
+  (def law (string law0 ":after-" (case lastop
+                                    (chr "f") "flush" (chr "e") "flush" (chr "p") "produce" (chr "s") "state"
+                                    (chr "z") "eof" (chr "c") "clone" "consume")))
   (if-let [w (in worst law)]
     (do
       (put w 1 (+ 1 (in w 1)))
       (when (or (< (length hist) (length (in w 0))) (and (= (length hist) (length (in w 0))) (< hist (in w 0))))
         (put w 0 hist) (put w 2 detail)))
     (put worst law @[hist 1 detail])))
+
 
 (defn enum [alpha depth prefix]
   (def k (length alpha))
